@@ -198,14 +198,14 @@ func main() {
 			}
 			if name == "Zlisp.Run" {
 				foundRun = true
-				// the run loop: `err := instr.Execute(env)` .. `if err != nil { env.restoreControlState(runState); env.pc = functionSize(env.curfunc); return .. }`
+				// the run loop: `err := instr.Execute(env)` .. `if err != nil { env.restoreControlState(<captured>); env.pc = functionSize(env.curfunc); return .. }`
 				ast.Inspect(fd.Body, func(x ast.Node) bool {
 					ifs, ok := x.(*ast.IfStmt)
 					if !ok || strings.ReplaceAll(show(ifs.Cond), " ", "") != "err!=nil" {
 						return true
 					}
 					txt := strings.ReplaceAll(show(ifs.Body), " ", "")
-					i := strings.Index(txt, "env.restoreControlState(runState)")
+					i := strings.Index(txt, "env.restoreControlState(")
 					j := strings.Index(txt, "env.pc=functionSize(env.curfunc)")
 					k := strings.Index(txt, "return")
 					if i >= 0 && j > i && k > j {
